@@ -190,6 +190,41 @@ func (g *Graph) VertexOf(n ast.Node) int {
 	return g.VertexAt(n.Pos(), n.End())
 }
 
+// FactsAtNode returns FactsAt for the vertex of n, plus the facts that short-circuit evaluation establishes inside that
+// vertex on the way down to n: in `a && n` the facts of a being true, in `a || n` those of a being false.
+func (g *Graph) FactsAtNode(n ast.Node) []Fact {
+	v := g.VertexOf(n)
+	out := g.FactsAt(v)
+	if v < 0 {
+		return out
+	}
+	var walk func(root ast.Node) bool
+	walk = func(root ast.Node) bool {
+		found := false
+		ast.Inspect(root, func(m ast.Node) bool {
+			if found || m == nil {
+				return false
+			}
+			if m == n {
+				found = true
+				return false
+			}
+			if m.Pos() > n.Pos() || m.End() < n.End() {
+				return false // n is not inside m
+			}
+			if be, ok := m.(*ast.BinaryExpr); ok && (be.Op == token.LAND || be.Op == token.LOR) {
+				if be.Y.Pos() <= n.Pos() && n.End() <= be.Y.End() {
+					out = append(out, ExpandCond(be.X, be.Op == token.LAND)...)
+				}
+			}
+			return true
+		})
+		return found
+	}
+	walk(g.V[v].Node)
+	return out
+}
+
 // VertexAt returns the smallest node vertex spanning [pos,end), or -1.
 func (g *Graph) VertexAt(pos, end token.Pos) int {
 	best := -1
